@@ -180,5 +180,34 @@ ArmFile ==
 ArmCase == LET c == NumProject(ArmKeys, "none") IN
            [c EXCEPT !.family = "numbers-arms", !.files = [j \in DOMAIN c.files |-> <<c.files[j][1], ArmFile>>]]
 
-NumberCases == PortableCases \o <<ArmCase>> \o EdgeCases
+\* ---- dialects: spellings that only one of the formats has ------------------------------------------------------------------
+\* JSON5 and YAML write numbers in ways JSON cannot: an explicit plus, a bare leading or trailing point, other radixes; YAML also
+\* spells booleans with capitals.  The content is still the number: it shows as every other spelling of it does.
+HexDig == <<"0","1","2","3","4","5","6","7","8","9","A","B","C","D","E","F">>
+RadixVal(ds, r) == FoldLeft(LAMBDA acc, x : acc * r + ((CHOOSE k \in 1..16 : HexDig[k] = x) - 1), 0, ds)
+Lit3(sym, ty, disp) == [sym |-> sym, ty |-> ty, disp |-> disp]
+HexBody == <<"1","F">>
+OctBody == <<"1","7">>
+BinBody == <<"1","0","1">>
+CommonDialect ==
+    << Lit3(<<"PLUS","5">>, "Signed", <<"5">>), Lit3(<<"DOT","5">>, "Float", <<"0","DOT","5">>), Lit3(<<"5","DOT">>, "Float", <<"5">>),
+       Lit3(<<"PLUS","DOT","5","e","1">>, "Float", <<"5">>), Lit3(<<"PLUS","1","DOT","5">>, "Float", <<"1","DOT","5">>),
+       Lit3(<<"0","x">> \o HexBody, "Signed", ToDigits(RadixVal(HexBody, 16))) >>
+Dialect(fmt) ==
+    IF fmt = "json5" THEN CommonDialect
+    ELSE CommonDialect
+         \o << Lit3(<<"0","o">> \o OctBody, "Unsigned", ToDigits(RadixVal(OctBody, 8))), Lit3(<<"0","b">> \o BinBody, "Unsigned", ToDigits(RadixVal(BinBody, 2))),
+                Lit3(<<"DASH","0","x">> \o HexBody, "Signed", <<"DASH">> \o ToDigits(RadixVal(HexBody, 16))),
+                Lit3(<<"T","r","u","e">>, "Bool", <<"t","r","u","e">>), Lit3(<<"F","A","L","S","E">>, "Bool", <<"f","a","l","s","e">>) >>
+DialectCase(fmt) ==
+    LET c == NumProject(LitKeys(Dialect(fmt)), "none") IN
+    [c EXCEPT !.family = "numbers-dialect", !.abs = c.abs @@ [only |-> fmt]]
+\* a negative hexadecimal integer is JSON5 (the sign belongs to every numeric literal); it is the number, exactly
+NegHexJson5 ==
+    LET sym == <<"DASH","0","x">> \o HexBody
+        c == NumProject([n1 |-> LitE("Signed", sym, <<"DASH">> \o ToDigits(RadixVal(HexBody, 16)))], "none") IN
+    [c EXCEPT !.family = "numbers-edge", !.abs = c.abs @@ [cls |-> "num:negative-hex", tok |-> sym, only |-> "json5"]]
+DialectCases == <<DialectCase("json5"), DialectCase("yaml"), NegHexJson5>>
+
+NumberCases == PortableCases \o <<ArmCase>> \o DialectCases \o EdgeCases
 =============================================================================
